@@ -9,7 +9,10 @@ IR (plain JSON):
                "fsetup": bool, "fcompose": bool}, ...],
      "main": [["wait"] | ["do", [k, ...]] | ["dofor", [k], n], ...],
      "pre": bool, "inv": bool, "intr": bool, "mon": bool, "reqa": bool, "sreq": bool,
-     "rec": bool, "term": n}
+     "rec": bool, "term": n, "termsec": bool,      terminate after n steps | n seconds
+     "cassign": [prop, ...]}                       properties the *simulator* increments by 10
+                                                   when it creates an object (run-time value
+                                                   differs from the scene's value)
 
 Every program-level fault site is a call FAULT("<site>") of vf.c14_lib.
 """
@@ -31,6 +34,7 @@ def emit(prog):
          "param gp = g",
          "class Foo(Object):",
          "    cnt[dynamic]: 0",
+         "    kind[dynamic]: None",  # type only known once a simulator reports a value
          "    foo: 1",
          "    bar: 2",
          "    baz: 3",
@@ -101,7 +105,8 @@ def emit(prog):
     if prog["rec"]:
         L.append('        record FAULT("rec") as r0')
     L.append("        record a0.foo as f0")
-    L.append(f"        terminate after {prog['term']} steps")
+    unit = "seconds" if prog.get("termsec") else "steps"
+    L.append(f"        terminate after {prog['term']} {unit}")
     L.append("    compose:")
     L.append('        FAULT("compose")')
     for item in prog["main"]:
@@ -147,7 +152,7 @@ def expected_value(prog, running, obj, prop):
     most recently started running scenario that overrides it (last such statement of that
     scenario), else the value the object was created with.  Returns (value, owner | None)."""
     val, owner = (("Base" if prog["objs"][obj]["beh"] else None) if prop == "behavior"
-                  else BASE[prop]), None
+                  else BASE[prop] + (10 if prop in prog.get("cassign", ()) else 0)), None
     for name in running:
         if not name.startswith("Sub"):
             continue
@@ -228,5 +233,7 @@ def programs(draw):
     prog["main"] = main
     for flag in ("pre", "inv", "intr", "mon", "reqa", "sreq", "rec"):
         prog[flag] = draw(st.booleans())
-    prog["term"] = draw(st.integers(4, 9))
+    prog["termsec"] = draw(st.booleans())
+    prog["term"] = draw(st.integers(2, 4)) if prog["termsec"] else draw(st.integers(4, 9))
+    prog["cassign"] = draw(st.lists(st.sampled_from(PROPS), max_size=2, unique=True))
     return prog
